@@ -201,6 +201,47 @@ static void run_keyless(void *a_)
     free(ch); mx_ep_free(&C); matrixSslDeleteSessionId(sid);
 }
 
+
+/* ================================================================ certificate-less client vs. a server that demands client authentication ====
+ * The attacker owns no client certificate.  It has watched an honest, client-authenticated connection (the session id travels in
+ * the clear) and now connects itself: without any session id, naming the sniffed id with the same suite (it does not know the
+ * master secret), or naming the sniffed id while offering only a different suite.  A server configured for client
+ * authentication must never complete with it. */
+enum { NA_FRESH = 0, NA_SNIFFED_SAME_SUITE, NA_SNIFFED_OTHER_SUITE, NA_N };
+static const char *naname[] = { "no-session-id", "sniffed-id-same-suite", "sniffed-id-other-suite" };
+typedef struct { int ver, na; } nacase_t;
+static void run_noauth(void *a_)
+{
+    nacase_t *nc = a_; vf_stat("cases", 1); vf_stat("certless_client_cases", 1);
+    uint16_t suite = 0xc02f, other = 0xc030; if (nc->ver == MX_TLS11 || nc->ver == MX_DTLS10) { suite = 0xc013; other = 0xc014; } if (nc->ver == MX_TLS13) { suite = 0x1301; other = 0x1302; }
+    /* honest, client-authenticated connection: the server caches the session */
+    sslSessionId_t *hsid; matrixSslNewSessionId(&hsid, NULL);
+    mx_cfg hc = { .ver = nc->ver, .suite = suite, .clientAuth = 1, .strictCb = 1 }; mx_conn k;
+    if (mx_conn_open(&k, &hc, hsid) != 0) { vf_incon("certless: honest open"); return; }
+    mx_conn_run(&k, NULL, NULL, 300);
+    if (!mx_conn_established(&k)) { vf_incon("certless: honest client-authenticated handshake failed (%s)", mx_vername[nc->ver]); mx_conn_close(&k); return; }
+    unsigned char sniffed[32]; int sl = k.s.ssl->sessionIdLen; if (sl > 32) sl = 32; memcpy(sniffed, k.s.ssl->sessionId, sl);
+    MX_ENTER(); matrixSslEncodeClosureAlert(k.c.ssl); MX_LEAVE(); k.c.wantTake = 1; mx_conn_run(&k, NULL, NULL, 20);
+    mx_conn_close(&k);
+    if (sl == 0 && nc->na != NA_FRESH) { vf_stat("certless_no_session_id_issued", 1); matrixSslDeleteSessionId(hsid); return; }
+    /* the attacker: MatrixSSL client WITHOUT an identity (trusts the server's CA), crafted cache entry */
+    sslKeys_t *ak = NULL; MX_ENTER(); matrixSslNewKeys(&ak, NULL); int lr = matrixSslLoadRsaKeys(ak, NULL, NULL, NULL, MX_TK "RSA/2048_RSA_CA.pem"); MX_LEAVE();
+    if (lr < 0) { vf_incon("certless: attacker key set"); return; }
+    sslSessionId_t *asid; matrixSslNewSessionId(&asid, NULL);
+    if (nc->na != NA_FRESH) { memcpy(asid->id, sniffed, sl); asid->idLen = (psSize_t) sl; for (int i = 0; i < 48; i++) asid->masterSecret[i] = (unsigned char) (0x30 + i); asid->cipherId = nc->na == NA_SNIFFED_SAME_SUITE ? suite : other; }
+    mx_cfg ac = { .ver = nc->ver, .suite = nc->na == NA_SNIFFED_OTHER_SUITE ? other : suite, .clientAuth = 1, .strictCb = 1, .ckeys = ak };
+    if (mx_conn_open(&k, &ac, asid) != 0) { vf_incon("certless: attacker open"); return; }
+    mx_conn_run(&k, NULL, NULL, 300);
+    int sdone = !k.s.dead && k.s.ssl && matrixSslHandshakeIsComplete(k.s.ssl);
+    vf_distinct("certless|%s|%s", mx_vername[nc->ver], naname[nc->na]);
+    vf_statf(1, "certless_%s_%s_%s", mx_vername[nc->ver], naname[nc->na], sdone ? "COMPLETE" : "refused");
+    if (sdone) {
+        char key[200]; snprintf(key, sizeof key, "c04:client-auth-server-completed-with-certificate-less-client:%s:%s", mx_vername[nc->ver], naname[nc->na]);
+        vf_violation(key, cur_desc, "a server configured for client authentication reports a completed handshake (resumed=%d) with a client that has no certificate at all (%s)", matrixSslIsResumedSession(k.s.ssl), naname[nc->na]);
+    } else vf_stat("certless_client_refused", 1);
+    mx_conn_close(&k); matrixSslDeleteSessionId(asid); matrixSslDeleteSessionId(hsid); MX_ENTER(); matrixSslDeleteKeys(ak); MX_LEAVE();
+}
+
 int main(int argc, char **argv)
 {
     vf_init(argc, argv); mx_global_init();
@@ -232,6 +273,17 @@ int main(int argc, char **argv)
         mx_entropy_seed(vf_seed * 37 + idx);
         vf_fork_case(run_keyless, &kc, "c04", cur_desc, 120);
     }
+    /* certificate-less client vs client-auth server */
+    { static const int vers[] = { MX_TLS11, MX_TLS12, MX_DTLS12, MX_TLS13 };
+      for (int vi = 0; vi < 4; vi++) for (int na = 0; na < NA_N; na++) {
+        if (vers[vi] == MX_TLS13 && na != NA_FRESH) continue;       /* TLS 1.3 resumption is by PSK only */
+        if (!vf_mine(idx++)) continue;
+        nacase_t nc = { vers[vi], na };
+        snprintf(cur_desc, sizeof cur_desc, "certless ver=%s %s", mx_vername[vers[vi]], naname[na]);
+        if (vf_case && strcmp(vf_case, cur_desc)) continue;
+        mx_entropy_seed(vf_seed * 41 + idx);
+        vf_fork_case(run_noauth, &nc, "c04", cur_desc, 120);
+      } }
     matrixSslClose(); vf_flush();
     return 0;
 }
